@@ -1,10 +1,10 @@
 SPECIFICATION Spec
-CONSTANTS NClients = 2
-FuturesPerClient = 1
+CONSTANTS NClients = 1
+FuturesPerClient = 3
 MaxThreads = 2
-Cap = 1
+Cap = 2
 AllowRetire = TRUE
-FixRetire = TRUE
+FixRetire = FALSE
 INVARIANTS AtMostOnce JoinAfterDone QueueOK
 PROPERTY Live
 CONSTANT defaultInitValue = defaultInitValue
